@@ -4,6 +4,7 @@ import PncModel.Camx.Landuse
 import PncModel.Camx.SlabRead
 import PncModel.Camx.CloudRainRead
 import PncModel.Camx.BoundaryRead
+import PncModel.Camx.UamivRead
 /- line protocol for the binary-format models -/
 namespace Camx
 open Words Wire
@@ -105,6 +106,7 @@ def runBin : List String → String
   | "bnd-enc" :: toks => Slab.runBnd toks
   | "wind-read" :: toks => Wind.runRead toks
   | "cr-read" :: toks => CloudRain.runRead toks
+  | "uamiv-rd" :: toks => UamivRead.run ("uamiv-rd" :: toks)
   | "bnd-read" :: toks => Boundary.runRead ("bnd-read" :: toks)
   | "slab-rd" :: toks => SlabRead.run ("slab-rd" :: toks)
   | "lu-enc" :: toks => Landuse.run ("lu-enc" :: toks)
